@@ -454,12 +454,20 @@ Proof.
       (name_eqb_sym n (s "trailer")), Ntr.
 Qed.
 
-Lemma handle_res_preserved : forall e,
-  res_preserved_b (resp_of e) (h_res false id_body e) = true.
+(* what Response.Write produces, before the HEAD framing headers are put back *)
+Definition h_res_core (e : exchange) : wire_res :=
+  res_write (g_close (go_read_request (rq e)) || r_close (go_read_response false id_body (resp_of e)))%bool
+            (go_read_response false id_body (resp_of e)).
+
+Lemma h_res_split : forall e,
+  h_res false id_body e = add_head_framing (rq e) (resp_of e) (h_res_core e).
+Proof. reflexivity. Qed.
+
+Lemma handle_res_core_preserved : forall e,
+  res_preserved_b (resp_of e) (h_res_core e) = true.
 Proof.
-  intro e. unfold h_res, handle_model. cbn [fst snd].
+  intro e. unfold h_res_core.
   set (r := resp_of e). set (g := go_read_request (rq e)).
-  assert (Hw : wants_gzip false g = false) by reflexivity. rewrite Hw.
   unfold res_preserved_b. rewrite !andb_true_iff. repeat split.
   - unfold go_read_response, res_write. cbn. apply N.eqb_refl.
   - unfold res_hdrs_preserved_b. apply forallb_forall. intros n _.
@@ -472,6 +480,87 @@ Proof.
     unfold go_read_response in *. cbn [andb] in *. cbn [r_framing r_uncompressed r_close negb orb] in *.
     destruct (sframing r) eqn:F; try reflexivity.
     rewrite Hc. unfold res_asks_close. rewrite F. now rewrite !orb_true_r.
+Qed.
+
+(* the framing headers of a HEAD response are hop-by-hop names: putting them
+   back changes no end-to-end value *)
+Lemma vals_head_framing_e2e : forall nom r n, e2e_name nom n = true -> vals n (head_framing r) = [].
+Proof.
+  intros nom r n He. unfold head_framing.
+  destruct (has_token _ _).
+  - now rewrite vals_cons, (e2e_not_hop _ _ _ He in_hop_te).
+  - destruct (hget _ _); [|reflexivity]. now rewrite vals_cons, (e2e_not_hop _ _ _ He in_hop_cl).
+Qed.
+
+Lemma head_framing_names_not_e2e : forall nom r n, In n (names_of (head_framing r)) -> e2e_name nom n = false.
+Proof.
+  intros nom r n. unfold head_framing. destruct (has_token _ _); [|destruct (hget _ _)]; cbn; intro H;
+    [destruct H as [H|[]]; subst; reflexivity|destruct H as [H|[]]; subst; reflexivity|destruct H].
+Qed.
+
+Lemma vals_bodiless_framing_e2e : forall nom q r n, e2e_name nom n = true -> vals n (bodiless_framing q r) = [].
+Proof.
+  intros nom q r n He. unfold bodiless_framing. destruct (is_head q); [now apply (vals_head_framing_e2e nom)|].
+  destruct (wants_cl0 q); [|reflexivity]. now rewrite vals_cons, (e2e_not_hop _ _ _ He in_hop_cl).
+Qed.
+
+Lemma bodiless_framing_names_not_e2e : forall nom q r n, In n (names_of (bodiless_framing q r)) -> e2e_name nom n = false.
+Proof.
+  intros nom q r n. unfold bodiless_framing. destruct (is_head q); [apply head_framing_names_not_e2e|].
+  destruct (wants_cl0 q); cbn; intro H; [destruct H as [H|[]]; subst; reflexivity|destruct H].
+Qed.
+
+Lemma handle_res_preserved : forall e,
+  res_preserved_b (resp_of e) (h_res false id_body e) = true.
+Proof.
+  intro e. rewrite h_res_split. pose proof (handle_res_core_preserved e) as H.
+  unfold add_head_framing. destruct (sframing (resp_of e)); try exact H.
+  unfold res_preserved_b in *. rewrite !andb_true_iff in *. destruct H as (((H1 & H2) & H3) & H4).
+  cbn [c_status c_hdrs c_body c_complete]. repeat split; auto.
+  unfold res_hdrs_preserved_b in *. rewrite forallb_forall in *. intros n Hin.
+  destruct (e2e_name (nominated (shdrs (resp_of e))) n) eqn:He; [|reflexivity].
+  cbn [c_hdrs] in Hin |- *.
+  rewrite vals_app, (vals_bodiless_framing_e2e _ _ _ _ He). cbn [app].
+  assert (Hin' : In n (names_of (shdrs (resp_of e)) ++ names_of (c_hdrs (h_res_core e)))).
+  { apply in_app_or in Hin as [Hin|Hin]; [apply in_or_app; now left|].
+    unfold names_of in Hin. rewrite map_app in Hin. apply in_app_or in Hin as [Hin|Hin].
+    - rewrite (bodiless_framing_names_not_e2e _ _ _ _ Hin) in He. discriminate.
+    - apply in_or_app. now right. }
+  specialize (H2 n Hin'). now rewrite He in H2.
+Qed.
+
+(* framing headers of bodiless responses *)
+Lemma vals_core_framing : forall e n,
+  sframing (resp_of e) = FBodiless -> In n framing_names -> vals n (c_hdrs (h_res_core e)) = [].
+Proof.
+  intros e n F Hn. unfold h_res_core, go_read_response. cbn [andb]. unfold res_write.
+  cbn [c_hdrs r_framing r_uncompressed r_hdr]. rewrite F. cbn [app].
+  rewrite vals_app.
+  assert (A : forall c : bool, vals n (if c then [(s "connection", s "close")] else []) = []).
+  { intro c. destruct c; [|reflexivity]. rewrite vals_cons.
+    destruct Hn as [Hn|[Hn|[]]]; subst n; reflexivity. }
+  rewrite A. cbn [app]. apply vals_exclude_drop.
+  destruct Hn as [Hn|[Hn|[]]]; subst n; reflexivity.
+Qed.
+
+Lemma handle_frm_preserved : forall e,
+  framing_ok e = true -> res_framing_preserved_b (resp_of e) (h_res false id_body e) = true.
+Proof.
+  intros e G. unfold res_framing_preserved_b. destruct (sframing (resp_of e)) eqn:F; try reflexivity.
+  rewrite h_res_split. unfold add_head_framing, framing_ok in *. rewrite F in *.
+  apply forallb_forall. intros n Hn. apply strs_eqb_eq.
+  cbn [c_hdrs]. rewrite vals_app, (vals_core_framing e n F Hn), app_nil_r.
+  unfold bodiless_framing. destruct (is_head (rq e)).
+  - apply andb_true_iff in G as [G1 G2].
+    unfold head_framing. rewrite (vals_lower_names (s "transfer-encoding")), hget_vals, (vals_lower_names (s "content-length")).
+    destruct (vals (s "transfer-encoding") (shdrs (resp_of e))) eqn:TE; [|discriminate].
+    change (has_token (s "chunked") []) with false. cbv iota.
+    destruct (vals (s "content-length") (shdrs (resp_of e))) as [|c [|]] eqn:CL; try discriminate;
+      destruct Hn as [Hn|[Hn|[]]]; subst n; rewrite ?TE, ?CL; reflexivity.
+  - apply andb_true_iff in G as [G G2]. apply andb_true_iff in G as [G0 G1]. apply negb_true_iff in G0. rewrite G0.
+    destruct (vals (s "content-length") (shdrs (resp_of e))) eqn:CL; [|discriminate].
+    destruct (vals (s "transfer-encoding") (shdrs (resp_of e))) eqn:TE; [|discriminate].
+    destruct Hn as [Hn|[Hn|[]]]; subst n; now rewrite ?TE, ?CL.
 Qed.
 
 (* ---------------------------------------------------------------- whole connections *)
@@ -518,6 +607,14 @@ Proof.
   intros es. unfold c01_res_ok, run.
   destruct (conn_run_structure false id_body es) as (_ & H2 & _). rewrite H2.
   apply forall2b_map_l. intros e _. apply handle_res_preserved.
+Qed.
+
+Lemma run_frm_ok : forall es,
+  (forall e, In e es -> framing_ok e = true) -> c01_frm_ok es (run es) = true.
+Proof.
+  intros es Hwf. unfold c01_frm_ok, run.
+  destruct (conn_run_structure false id_body es) as (_ & H2 & _). rewrite H2.
+  apply forall2b_map_l. intros e He. apply handle_frm_preserved. apply Hwf. now apply served_incl.
 Qed.
 
 Lemma run_close_ok : forall es, c01_close_ok es (run es) = true.
@@ -632,16 +729,32 @@ Proof.
   rewrite H, IH. reflexivity.
 Qed.
 
+(* bodiless responses: presence and value of the framing headers *)
+Definition res_framing_preserved (r : respmsg) (c : wire_res) : Prop :=
+  sframing r = FBodiless -> forall n, In n framing_names -> vals n (c_hdrs c) = vals n (shdrs r).
+
+Lemma res_framing_preserved_b_iff : forall r c,
+  res_framing_preserved_b r c = true <-> res_framing_preserved r c.
+Proof.
+  intros r c. unfold res_framing_preserved_b, res_framing_preserved. destruct (sframing r).
+  1-3: split; [intros _ X; discriminate|reflexivity].
+  rewrite forallb_forall. split.
+  - intros H _ n Hn. apply strs_eqb_eq. now apply H.
+  - intros H n Hn. apply strs_eqb_eq. now apply H.
+Qed.
+
 Definition c01_holds (es : list exchange) (o : conn_obs) : Prop :=
   Forall2 req_preserved_x (served es) (origin_saw o) /\
   Forall2 res_preserved (map resp_of (served es)) (client_got o) /\
+  Forall2 res_framing_preserved (map resp_of (served es)) (client_got o) /\
   closed o = existsb wants_close es.
 
 Lemma c01_ok_iff : forall es o, c01_ok es o = true <-> c01_holds es o.
 Proof.
-  intros es o. unfold c01_ok, c01_holds, c01_req_ok, c01_res_ok, c01_close_ok.
+  intros es o. unfold c01_ok, c01_holds, c01_req_ok, c01_res_ok, c01_frm_ok, c01_close_ok.
   rewrite !andb_true_iff.
-  rewrite (forall2b_Forall2 _ _ req_preserved_e_iff), (forall2b_Forall2 _ _ res_preserved_b_iff).
+  rewrite (forall2b_Forall2 _ _ req_preserved_e_iff), (forall2b_Forall2 _ _ res_preserved_b_iff),
+    (forall2b_Forall2 _ _ res_framing_preserved_b_iff).
   rewrite eqb_true_iff. tauto.
 Qed.
 
@@ -680,12 +793,46 @@ Proof.
   induction H as [|r c rs cs Hrc _ IH]; constructor; [|exact IH]. apply Hrc.
 Qed.
 
+Lemma c01_frm_ok_iff : forall es o,
+  c01_frm_ok es o = true <-> Forall2 res_framing_preserved (map resp_of (served es)) (client_got o).
+Proof. intros. unfold c01_frm_ok. apply (forall2b_Forall2 _ _ res_framing_preserved_b_iff). Qed.
+
 Lemma run_holds : forall es,
-  (forall e, In e es -> wf_req (rq e) = true) -> c01_holds es (run es).
+  (forall e, In e es -> wf_ex e = true) -> c01_holds es (run es).
 Proof.
   intros es Hwf. apply c01_ok_iff. unfold c01_ok.
-  now rewrite (run_req_ok es Hwf), run_res_ok, run_close_ok.
+  assert (H1 : forall e, In e es -> wf_req (rq e) = true).
+  { intros e He. specialize (Hwf e He). unfold wf_ex in Hwf. now apply andb_true_iff in Hwf as [A _]. }
+  assert (H2 : forall e, In e es -> framing_ok e = true).
+  { intros e He. specialize (Hwf e He). unfold wf_ex in Hwf. now apply andb_true_iff in Hwf as [_ B]. }
+  now rewrite (run_req_ok es H1), run_res_ok, (run_frm_ok es H2), run_close_ok.
 Qed.
+
+Lemma run_requests : forall es,
+  (forall e, In e es -> wf_req (rq e) = true) ->
+  Forall2 req_preserved_x (served es) (origin_saw (run es)).
+Proof. intros es H. apply c01_req_ok_iff. now apply run_req_ok. Qed.
+
+Lemma run_framing : forall es,
+  (forall e, In e es -> framing_ok e = true) ->
+  Forall2 res_framing_preserved (map resp_of (served es)) (client_got (run es)).
+Proof. intros es H. apply c01_frm_ok_iff. now apply run_frm_ok. Qed.
+
+(* a 304 whose origin states a Content-Length reaches the client without it *)
+Definition cl_304 : list exchange :=
+  [mkEx (mkReq (s "GET") OriginForm (s "/") false [(s "Host", s "ORIGIN")] (mkBody 0 0) RqNone)
+        (Resp (mkResp 304 false [(s "Content-Length", s "99")] (mkBody 0 0) FBodiless)) ReadAll].
+
+Lemma cl_304_refutes : c01_frm_ok cl_304 (run cl_304) = false.
+Proof. vm_compute. reflexivity. Qed.
+
+(* a 204 in answer to POST gets a Content-Length: 0 the origin never sent *)
+Definition post_204 : list exchange :=
+  [mkEx (mkReq (s "POST") OriginForm (s "/") false [(s "Host", s "ORIGIN")] (mkBody 0 0) RqCL)
+        (Resp (mkResp 204 false [] (mkBody 0 0) FBodiless)) ReadAll].
+
+Lemma post_204_refutes : c01_frm_ok post_204 (run post_204) = false.
+Proof. vm_compute. reflexivity. Qed.
 
 (* responses and the close behaviour need no guard at all *)
 Lemma run_responses : forall es,
